@@ -3,7 +3,7 @@
    freeChildren, SpawnChild, death watch).  Proofs: C09/TreeProofs.v, C09/StopProofs.v. *)
 From stdpp Require Import gmap.
 From Coq Require Import ZArith List.
-From GV Require Import C09.Model C09.TreeProofs C09.StopModel C09.StopProofs.
+From GV Require Import C09.Model C09.TreeProofs C09.StopModel C09.StopProofs C09.StopAll.
 
 (* ---- the tree (every finite sequence of tree operations, valid or not) *)
 
@@ -82,6 +82,23 @@ Theorem C09_spawn_race_refuted : forall ws,
     reg (acts s 2) = false.
 Proof. exact spawn_race_refuted. Qed.
 
+(* "stops EVERY descendant": beyond the children snapshots — every actor spawned (SpawnChild returned)
+   anywhere below a has completed PostStop and is not running once PostStop of a has completed:
+   code before the repair on race-free executions ... *)
+Theorem C09_all_descendants_stopped_partial : forall s a, reach_rf false s -> In (EPostE a) (trace s) ->
+  forall d, desc s a d -> complete (acts s d) -> running (acts s d) = false /\ In (EPostE d) (trace s).
+Proof. intros s a R. apply (all_descendants_stopped false), reach_rf_s, R. Qed.
+
+(* ... and for the repaired freeChildren on every execution in which no children snapshot is
+   taken while a SpawnChild of that actor is in flight (the open spawn race), concurrent stops included *)
+Theorem C09_all_descendants_stopped_repaired : forall s a, reach_ns true s -> In (EPostE a) (trace s) ->
+  forall d, desc s a d -> complete (acts s d) -> running (acts s d) = false /\ In (EPostE d) (trace s).
+Proof. intros s a R. apply (all_descendants_stopped true), reach_ns_s, R. Qed.
+
+(* the driver-level function the tie evaluates only takes steps of the small-step system *)
+Theorem C09_driver_within_model : forall ws gated n s d, reach ws s -> reach ws (fst (drive ws gated n s d)).
+Proof. exact drive_reach. Qed.
+
 Print Assumptions C09_tree_consistent.
 Print Assumptions C09_tree_watch_inverse.
 Print Assumptions C09_tree_count.
@@ -94,3 +111,6 @@ Print Assumptions C09_concurrent_stop_refuted.
 Print Assumptions C09_children_first_repaired.
 Print Assumptions C09_stopped_on_return_repaired.
 Print Assumptions C09_spawn_race_refuted.
+Print Assumptions C09_all_descendants_stopped_partial.
+Print Assumptions C09_all_descendants_stopped_repaired.
+Print Assumptions C09_driver_within_model.
